@@ -595,4 +595,478 @@ theorem typeRef_name (ρ : Str → Option DataType) (v : Str) (t : DataType) :
   · simp only
     split <;> exact ⟨_, rfl⟩
 
+/-! ## Subqueries: by induction on the nesting depth -/
+
+mutual
+  /-- No field that is just `*` or a regex and no such GROUP BY dimension, at any depth. -/
+  def noWholeWild : SelectStmt → Bool
+    | .mk fields _ dims sources _ _ _ _ _ _ _ _ _ _ _ _ _ _ _ =>
+      fields.all (fun f => !f.expr.isWildOrRegex) && dims.all (fun d => !d.isWildOrRegex) &&
+        sourcesNoWholeWild sources
+  def sourcesNoWholeWild : List Source → Bool
+    | [] => true
+    | s :: rest => sourceNoWholeWild s && sourcesNoWholeWild rest
+  def sourceNoWholeWild : Source → Bool
+    | .measurement _ => true
+    | .subquery st => noWholeWild st
+end
+
+theorem isWildOrRegex_hasWild (e : Expr) (h : e.hasWild = false) : e.isWildOrRegex = false := by
+  cases e <;> first | rfl | (simp [Expr.hasWild] at h)
+
+theorem expandField_no_whole_wild (re : Str → Str → Bool) (refs : List ColRef) (f : Field) (out : List Field)
+    (h : expandField re refs f = .ok out) : ∀ g ∈ out, g.expr.isWildOrRegex = false := by
+  intro g hg
+  cases hfe : f.expr with
+  | wildcard wt =>
+    unfold expandField at h
+    rw [hfe] at h
+    simp only [Except.ok.injEq] at h
+    subst h
+    rw [List.mem_map] at hg
+    obtain ⟨r, _, rfl⟩ := hg
+    rfl
+  | regex src =>
+    unfold expandField at h
+    rw [hfe] at h
+    simp only [Except.ok.injEq] at h
+    subst h
+    rw [List.mem_map] at hg
+    obtain ⟨r, _, rfl⟩ := hg
+    rfl
+  | call cname cargs =>
+    rw [expandField_call re refs f cname cargs hfe] at h
+    have hkeep : out = [f] → g.expr.isWildOrRegex = false := by
+      intro e; subst e
+      simp only [List.mem_singleton] at hg
+      subst hg
+      rw [hfe]; rfl
+    have hcf : ∀ iname keep, out = callFields refs f.name (.call cname cargs) iname keep →
+        g.expr.isWildOrRegex = false := by
+      intro iname keep e
+      subst e
+      obtain ⟨r, _, _, _, _, rfl⟩ := tags_not_in_calls _ _ _ _ _ g hg
+      simp only [substInner]
+      rfl
+    split at h
+    · split at h
+      · cases h
+      · simp only [Except.ok.injEq] at h; exact hcf _ _ h.symm
+    · simp only [Except.ok.injEq] at h; exact hcf _ _ h.symm
+    · simp only [Except.ok.injEq] at h; exact hkeep h.symm
+  | binary op l r =>
+    unfold expandField at h
+    rw [hfe] at h
+    simp only at h
+    split at h
+    · cases h
+    · split at h
+      · cases h
+      · simp only [Except.ok.injEq] at h
+        subst h
+        simp only [List.mem_singleton] at hg
+        subst hg
+        rw [hfe]; rfl
+  | paren _ | varRef _ _ | distinct _ | string _ | number _ | integer _ | unsigned _ | boolean _
+  | duration _ | time _ | nil | list _ | boundParam _ =>
+    unfold expandField at h
+    rw [hfe] at h
+    simp only [Except.ok.injEq] at h
+    subst h
+    simp only [List.mem_singleton] at hg
+    subst hg
+    rw [hfe]; rfl
+
+theorem expandFields_no_whole_wild (re : Str → Str → Bool) (refs : List ColRef) :
+    ∀ (fields out : List Field), expandFields re refs fields = .ok out →
+      ∀ g ∈ out, g.expr.isWildOrRegex = false
+  | [], out, h => by
+    simp only [expandFields, Except.ok.injEq] at h
+    subst h
+    intro g hg; cases hg
+  | f :: rest, out, h => by
+    unfold expandFields at h
+    cases hf : expandField re refs f with
+    | error e => rw [hf] at h; cases h
+    | ok o1 =>
+      rw [hf] at h
+      simp only at h
+      cases hr : expandFields re refs rest with
+      | error e => rw [hr] at h; cases h
+      | ok o2 =>
+        rw [hr] at h
+        simp only [Except.ok.injEq] at h
+        subst h
+        intro g hg
+        rcases List.mem_append.mp hg with hg | hg
+        · exact expandField_no_whole_wild re refs f o1 hf g hg
+        · exact expandFields_no_whole_wild re refs rest o2 hr g hg
+
+theorem expandDims_no_whole_wild (re : Str → Str → Bool) (names : List Str) :
+    ∀ (dims : List Expr), ∀ d ∈ expandDims re names dims, d.isWildOrRegex = false
+  | [], d, hd => by cases hd
+  | x :: rest, d, hd => by
+    simp only [expandDims, List.mem_append] at hd
+    rcases hd with hd | hd
+    · cases x <;> simp only [expandDim, List.mem_map, List.mem_singleton] at hd <;>
+        first
+        | (obtain ⟨n, _, rfl⟩ := hd; rfl)
+        | (subst hd; rfl)
+    · exact expandDims_no_whole_wild re names rest d hd
+
+/-- After `rewriteBody` no field is a bare wildcard or regex, and no dimension is. -/
+theorem rewriteBody_no_whole_wild (m : FieldMapper) (re : Str → Str → Bool) (fields : List Field)
+    (dims : List Expr) (sources : List Source) (cond : Option Expr) (f' : List Field) (d' : List Expr)
+    (c' : Option Expr) (h : rewriteBody m re fields dims sources cond = .ok (f', d', c')) :
+    (∀ g ∈ f', g.expr.isWildOrRegex = false) ∧ (∀ d ∈ d', d.isWildOrRegex = false) := by
+  have hnoF : ∀ fs : List Field, hasFieldWildcard fs = false → ∀ g ∈ fs, g.expr.isWildOrRegex = false := by
+    intro fs hfs g hg
+    unfold hasFieldWildcard at hfs
+    rw [List.any_eq_false] at hfs
+    exact isWildOrRegex_hasWild _ (by simpa using hfs g hg)
+  have hnoD : hasDimensionWildcard dims = false → ∀ d ∈ dims, d.isWildOrRegex = false := by
+    intro hds d hd
+    unfold hasDimensionWildcard at hds
+    rw [List.any_eq_false] at hds
+    simpa using hds d hd
+  unfold rewriteBody at h
+  simp only at h
+  split at h
+  · rename_i hc
+    simp only [Except.ok.injEq, Prod.mk.injEq] at h
+    obtain ⟨rfl, rfl, _⟩ := h
+    simp only [Bool.and_eq_true, Bool.not_eq_eq_eq_not, Bool.not_true] at hc
+    exact ⟨hnoF _ hc.1, hnoD hc.2⟩
+  · split at h
+    · cases h
+    · split at h
+      · cases h
+      · rename_i fields2 hf2
+        simp only [Except.ok.injEq, Prod.mk.injEq] at h
+        obtain ⟨rfl, rfl, _⟩ := h
+        constructor
+        · split at hf2
+          · exact expandFields_no_whole_wild re _ _ _ hf2
+          · rename_i hfw
+            simp only [Except.ok.injEq] at hf2
+            subst hf2
+            exact hnoF _ (by simpa using hfw)
+        · split
+          · exact expandDims_no_whole_wild re _ dims
+          · rename_i hdw
+            exact hnoD (by simpa using hdw)
+
+mutual
+  /-- **Subqueries, by induction on the nesting depth.** After `RewriteFields` no statement at any
+  depth has a field that is a bare `*` / regex or such a GROUP BY dimension: all of them have been
+  replaced (subqueries first, then the statements that select from them). -/
+  theorem rewrite_removes_wildcards (m : FieldMapper) (re : Str → Str → Bool) :
+      ∀ (s s' : SelectStmt), rewriteFields m re s = .ok s' → noWholeWild s' = true
+    | .mk fields target dims sources cond sortFields limit offset slimit soffset isRaw fill fillValue
+        location timeAlias omitTime stripName emitName dedupe, s', h => by
+      unfold rewriteFields at h
+      rw [rewriteWith] at h
+      cases hs : rewriteSourcesWith (rewriteBody m re) sources with
+      | error e => rw [hs] at h; cases h
+      | ok sources' =>
+        rw [hs] at h
+        simp only at h
+        cases hb : rewriteBody m re fields dims sources' cond with
+        | error e => rw [hb] at h; cases h
+        | ok r =>
+          obtain ⟨f', d', c'⟩ := r
+          rw [hb] at h
+          simp only [Except.ok.injEq] at h
+          subst h
+          have h1 := rewriteBody_no_whole_wild m re fields dims sources' cond f' d' c' hb
+          have h2 := rewriteSources_remove_wildcards m re sources sources' hs
+          rw [noWholeWild]
+          simp only [Bool.and_eq_true, List.all_eq_true, Bool.not_eq_eq_eq_not, Bool.not_true]
+          exact ⟨⟨h1.1, h1.2⟩, h2⟩
+  theorem rewriteSources_remove_wildcards (m : FieldMapper) (re : Str → Str → Bool) :
+      ∀ (srcs srcs' : List Source), rewriteSourcesWith (rewriteBody m re) srcs = .ok srcs' →
+        sourcesNoWholeWild srcs' = true
+    | [], srcs', h => by
+      simp only [rewriteSourcesWith, Except.ok.injEq] at h
+      subst h; rfl
+    | src :: rest, srcs', h => by
+      rw [rewriteSourcesWith] at h
+      cases h1 : rewriteSourceWith (rewriteBody m re) src with
+      | error e => rw [h1] at h; cases h
+      | ok src' =>
+        rw [h1] at h
+        simp only at h
+        cases h2 : rewriteSourcesWith (rewriteBody m re) rest with
+        | error e => rw [h2] at h; cases h
+        | ok rest' =>
+          rw [h2] at h
+          simp only [Except.ok.injEq] at h
+          subst h
+          rw [sourcesNoWholeWild, rewriteSource_removes_wildcards m re src src' h1,
+            rewriteSources_remove_wildcards m re rest rest' h2]
+          rfl
+  theorem rewriteSource_removes_wildcards (m : FieldMapper) (re : Str → Str → Bool) :
+      ∀ (src src' : Source), rewriteSourceWith (rewriteBody m re) src = .ok src' →
+        sourceNoWholeWild src' = true
+    | .measurement ms, src', h => by
+      simp only [rewriteSourceWith, Except.ok.injEq] at h
+      subst h; rfl
+    | .subquery st, src', h => by
+      rw [rewriteSourceWith] at h
+      cases h1 : rewriteWith (rewriteBody m re) st with
+      | error e => rw [h1] at h; cases h
+      | ok st' =>
+        rw [h1] at h
+        simp only [Except.ok.injEq] at h
+        subst h
+        rw [sourceNoWholeWild]
+        exact rewrite_removes_wildcards m re st st' h1
+end
+
+/-- The rewrite of a statement contains the rewrites of its subqueries: the sources of the result
+are the sources rewritten one by one, in order, before the statement itself is looked at. -/
+theorem subqueries_first (m : FieldMapper) (re : Str → Str → Bool) (s s' : SelectStmt)
+    (h : rewriteFields m re s = .ok s') :
+    rewriteSourcesWith (rewriteBody m re) s.sources = .ok s'.sources ∧
+    rewriteBody m re s.fields s.dimensions s'.sources s.condition =
+      .ok (s'.fields, s'.dimensions, s'.condition) := by
+  cases s with
+  | mk fields target dims sources cond sortFields limit offset slimit soffset isRaw fill fillValue
+      location timeAlias omitTime stripName emitName dedupe =>
+    unfold rewriteFields at h
+    rw [rewriteWith] at h
+    cases hs : rewriteSourcesWith (rewriteBody m re) sources with
+    | error e => rw [hs] at h; cases h
+    | ok sources' =>
+      rw [hs] at h
+      simp only at h
+      cases hb : rewriteBody m re fields dims sources' cond with
+      | error e => rw [hb] at h; cases h
+      | ok r =>
+        obtain ⟨f', d', c'⟩ := r
+        rw [hb] at h
+        simp only [Except.ok.injEq] at h
+        subst h
+        exact ⟨hs, hb⟩
+
+/-! ## The property text read literally: where the code deviates
+
+The text says tags are left out of the fields "when the statement already groups by them".
+Read literally, a whole-field `*` should list every field column and every tag key the statement
+does not group by (`expandLiteral`).  The code agrees except in two regions, both long-standing
+upstream behaviour (recorded as known findings `C12-no-fields-drops-tags`,
+`C12-regex-groupby-drops-ungrouped-tags`). -/
+
+/-- Does the statement group by tag `t`: named in GROUP BY, or GROUP BY `*`, or a GROUP BY regex
+that matches it? -/
+def groupedBy (re : Str → Str → Bool) (dims : List Expr) (t : Str) : Bool :=
+  dims.any (fun d => match d with
+    | .varRef v _ => v = t
+    | .wildcard _ => true
+    | .regex src => re src t
+    | _ => false)
+
+/-- The expansion of `*` by the letter of the property. -/
+def expandLiteral (re : Str → Str → Bool) (cols : List (Str × DataType)) (tags : List Str) (dims : List Expr) :
+    List ColRef :=
+  sortRefs (specFieldCols cols ++
+    ((dedup tags).filter (fun t => !groupedBy re dims t)).map (fun t => ⟨t, .Tag⟩))
+
+theorem groupedBy_no_dim_wildcard (re : Str → Str → Bool) (t : Str) :
+    ∀ (dims : List Expr), hasDimensionWildcard dims = false →
+      groupedBy re dims t = decide (t ∈ dimRefs dims)
+  | [], _ => by simp [groupedBy, dimRefs]
+  | d :: rest, h => by
+    unfold hasDimensionWildcard at h
+    rw [List.any_cons, Bool.or_eq_false_iff] at h
+    have ih := groupedBy_no_dim_wildcard re t rest h.2
+    unfold groupedBy at ih ⊢
+    rw [List.any_cons, ih]
+    cases d with
+    | varRef v ty =>
+      simp only [dimRefs, List.mem_cons]
+      by_cases hv : v = t
+      · subst hv; simp
+      · have hv' : ¬ t = v := fun e => hv e.symm
+        simp [hv, hv']
+    | wildcard _ => simp [Expr.isWildOrRegex] at h
+    | regex _ => simp [Expr.isWildOrRegex] at h
+    | _ => simp only [dimRefs, Bool.false_or]; exact decide_eq_decide.mpr Iff.rfl
+
+/-- **Exactly the schema's columns (literal reading), `_partial`.**  Outside the two recorded
+regions the expansion of `*` is the literal one: provided (1) the sources have at least one field
+column, or no tag key is left ungrouped; and (2) GROUP BY has no wildcard or regex, or every tag
+key is grouped.  What is missing for full strength: without (1) the code expands `*` to nothing
+although ungrouped tag keys exist; without (2) it leaves out tag keys that no GROUP BY regex
+matches (`*_counterexample` below). -/
+theorem expansion_literal_partial (re : Str → Str → Bool) (cols : List (Str × DataType)) (tags : List Str)
+    (dims : List Expr)
+    (h1 : specFieldCols cols ≠ [] ∨ ∀ t ∈ tags, groupedBy re dims t = true)
+    (h2 : hasDimensionWildcard dims = false ∨ ∀ t ∈ tags, groupedBy re dims t = true) :
+    expandSpec cols tags dims (hasDimensionWildcard dims) = expandLiteral re cols tags dims := by
+  have hall : (∀ t ∈ tags, groupedBy re dims t = true) →
+      ((dedup tags).filter (fun t => !groupedBy re dims t)) = [] := by
+    intro h
+    rw [List.filter_eq_nil_iff]
+    intro t ht
+    rw [mem_dedup] at ht
+    simp [h t ht]
+  unfold expandSpec expandLiteral
+  cases hdw : hasDimensionWildcard dims
+  · -- no wildcard in GROUP BY: grouped = named
+    have hfilter : ((dedup tags).filter (fun t => !groupedBy re dims t)) =
+        ((dedup tags).filter (fun t => decide (t ∉ dimRefs dims))) := by
+      apply List.filter_congr
+      intro t _
+      rw [groupedBy_no_dim_wildcard re t dims hdw]
+      simp
+    by_cases hz : specFieldCols cols = []
+    · rw [if_pos hz]
+      rcases h1 with h1 | h1
+      · exact absurd hz h1
+      · rw [hall h1, hz]; rfl
+    · rw [if_neg hz]
+      simp only [Bool.false_eq_true, ↓reduceIte]
+      unfold specTagCols
+      rw [hfilter]
+  · rcases h2 with h2 | h2
+    · rw [hdw] at h2; cases h2
+    · rw [hall h2]
+      by_cases hz : specFieldCols cols = []
+      · rw [if_pos hz, hz]; rfl
+      · rw [if_neg hz]; rfl
+
+/-! ### Kernel-checked witnesses -/
+
+def cpu : Measurement := { name := ['c', 'p', 'u'] }
+def tagsonly : Measurement := { name := ['t', 'o'] }
+def sValue1 : Str := ['v', 'a', 'l', 'u', 'e', '1']
+def sHost : Str := ['h', 'o', 's', 't']
+def sRegion : Str := ['r', 'e', 'g', 'i', 'o', 'n']
+def sDc : Str := ['d', 'c']
+
+/-- `cpu`: field `value1` float, tags `region`, `host` (listed in that order);
+`tagsonly`: no fields, tags `host`, `dc`; `MapType` answers from the same data. -/
+def demoMapper : FieldMapper where
+  mapType := fun ms n =>
+    if ms.name = cpu.name then
+      (if n = sValue1 then .Float else if n = sHost ∨ n = sRegion then .Tag else .Unknown)
+    else if ms.name = tagsonly.name then (if n = sHost ∨ n = sDc then .Tag else .Unknown)
+    else .Unknown
+  callType := none
+  fieldDimensions := fun ms =>
+    if ms.name = cpu.name then .ok ([(sValue1, .Float)], [sRegion, sHost])
+    else if ms.name = tagsonly.name then .ok ([], [sHost, sDc])
+    else .ok ([], [])
+
+/-- The same schema with the lists in another order. -/
+def demoMapper' : FieldMapper :=
+  { demoMapper with
+    fieldDimensions := fun ms =>
+      if ms.name = cpu.name then .ok ([(sValue1, .Float)], [sHost, sRegion])
+      else if ms.name = tagsonly.name then .ok ([], [sDc, sHost])
+      else .ok ([], []) }
+
+/-- The regex oracle for `/^h/`. -/
+def demoRe (src name : Str) : Bool := src = ['^', 'h'] && name.head? = some 'h'
+
+def select (fields : List Field) (dims : List Expr) (sources : List Source) : SelectStmt :=
+  .mk fields none dims sources none [] 0 0 0 0 true .null .none none [] false false [] false
+
+def star : Field := { expr := .wildcard .ILLEGAL }
+
+/-- The references a rewritten statement selects / groups by (`none`: not a plain reference). -/
+def asRef : Expr → Option ColRef
+  | .varRef v t => some ⟨v, t⟩
+  | _ => none
+
+def outFields (r : Except Str SelectStmt) : Option (List (Option ColRef)) :=
+  match r with
+  | .ok s => some (s.fields.map (fun f => asRef f.expr))
+  | .error _ => none
+
+def outDims (r : Except Str SelectStmt) : Option (List (Option ColRef)) :=
+  match r with
+  | .ok s => some (s.dimensions.map asRef)
+  | .error _ => none
+
+/-- **Counterexample 1** (`C12-no-fields-drops-tags`).  Schema: `tagsonly` has tag keys `host`,
+`dc` and no field.  `SELECT * FROM tagsonly` is rewritten to a statement with an *empty* field list
+(`if len(fieldSet) > 0` in `RewriteFields`), whereas by the letter of the property `*` stands for
+`dc::tag, host::tag`.  Hypothesis (1) of `expansion_literal_partial` fails. -/
+theorem no_fields_drops_tags_counterexample :
+    outFields (rewriteFields demoMapper demoRe (select [star] [] [.measurement tagsonly])) = some [] ∧
+    expandLiteral demoRe [] [sHost, sDc] [] = [⟨sDc, .Tag⟩, ⟨sHost, .Tag⟩] ∧
+    ¬ (specFieldCols [] ≠ [] ∨ ∀ t ∈ [sHost, sDc], groupedBy demoRe [] t = true) := by
+  decide
+
+/-- **Counterexample 2** (`C12-regex-groupby-drops-ungrouped-tags`).  Schema: `cpu` has field
+`value1` and tag keys `host`, `region`.  `SELECT * FROM cpu GROUP BY /^h/` is rewritten to
+`SELECT value1::float FROM cpu GROUP BY host`: `region` is neither grouped by nor selected,
+whereas by the letter of the property `*` stands for `region::tag, value1::float`.
+Hypothesis (2) of `expansion_literal_partial` fails. -/
+theorem regex_groupby_drops_ungrouped_tags_counterexample :
+    outFields (rewriteFields demoMapper demoRe
+      (select [star] [.regex ['^', 'h']] [.measurement cpu])) = some [some ⟨sValue1, .Float⟩] ∧
+    outDims (rewriteFields demoMapper demoRe
+      (select [star] [.regex ['^', 'h']] [.measurement cpu])) = some [some ⟨sHost, .Unknown⟩] ∧
+    expandLiteral demoRe [(sValue1, .Float)] [sRegion, sHost] [.regex ['^', 'h']] =
+      [⟨sRegion, .Tag⟩, ⟨sValue1, .Float⟩] ∧
+    ¬ (hasDimensionWildcard [.regex ['^', 'h']] = false ∨
+        ∀ t ∈ [sRegion, sHost], groupedBy demoRe [.regex ['^', 'h']] t = true) := by
+  decide
+
+/-! ## Non-vacuity -/
+
+/-- `SELECT * FROM cpu`: tags and fields, sorted by name, with their types. -/
+example : outFields (rewriteFields demoMapper demoRe (select [star] [] [.measurement cpu])) =
+    some [some ⟨sHost, .Tag⟩, some ⟨sRegion, .Tag⟩, some ⟨sValue1, .Float⟩] := by decide
+
+/-- The other listing order gives the same answer (an instance of `rewriteFields_perm_invariant`). -/
+example : outFields (rewriteFields demoMapper' demoRe (select [star] [] [.measurement cpu])) =
+    some [some ⟨sHost, .Tag⟩, some ⟨sRegion, .Tag⟩, some ⟨sValue1, .Float⟩] := by decide
+
+/-- `SELECT * FROM cpu GROUP BY host`: the grouped tag is left out. -/
+example : outFields (rewriteFields demoMapper demoRe
+    (select [star] [.varRef sHost .Unknown] [.measurement cpu])) =
+    some [some ⟨sRegion, .Tag⟩, some ⟨sValue1, .Float⟩] := by decide
+
+/-- `SELECT value1, host FROM cpu GROUP BY *`: untyped references get their types, `*` becomes the
+tag keys. -/
+example :
+    let r := rewriteFields demoMapper demoRe
+      (select [{ expr := .varRef sValue1 .Unknown }, { expr := .varRef sHost .Unknown }] [.wildcard .ILLEGAL]
+        [.measurement cpu])
+    outFields r = some [some ⟨sValue1, .Float⟩, some ⟨sHost, .Tag⟩] ∧
+    outDims r = some [some ⟨sHost, .Unknown⟩, some ⟨sRegion, .Unknown⟩] := by decide
+
+/-- `SELECT mean(*) FROM cpu`: one call per non-tag column, aliased. -/
+example : (match rewriteFields demoMapper demoRe
+      (select [{ expr := .call ['m', 'e', 'a', 'n'] [.wildcard .ILLEGAL] }] [] [.measurement cpu]) with
+    | .ok s => s.fields.map (fun f => f.alias)
+    | .error _ => []) = [['m', 'e', 'a', 'n', '_'] ++ sValue1] := by decide
+
+/-- A subquery that selects a tag exposes it as a column of type tag *and* as a dimension; the outer
+`*` lists both (specified behaviour: the columns of the schema, one per source column name and
+one per ungrouped tag key).  `SELECT * FROM (SELECT region FROM cpu GROUP BY region)`. -/
+example : outFields (rewriteFields demoMapper demoRe
+    (select [star] [] [.subquery (select [{ expr := .varRef sRegion .Unknown }] [.varRef sRegion .Unknown]
+      [.measurement cpu])])) =
+    some [some ⟨sRegion, .Tag⟩, some ⟨sRegion, .Tag⟩] := by decide
+
+/-- The hypothesis of `rewriteFields_perm_invariant` is satisfiable by different mappers. -/
+example : MapperPerm demoMapper demoMapper' := by
+  refine ⟨rfl, ?_⟩
+  intro ms
+  simp only [demoMapper, demoMapper']
+  by_cases h1 : ms.name = cpu.name
+  · rw [if_pos h1, if_pos h1]
+    exact ⟨List.Perm.refl _, List.Perm.swap _ _ _⟩
+  · rw [if_neg h1, if_neg h1]
+    by_cases h2 : ms.name = tagsonly.name
+    · rw [if_pos h2, if_pos h2]
+      exact ⟨List.Perm.refl _, List.Perm.swap _ _ _⟩
+    · rw [if_neg h2, if_neg h2]
+      exact ⟨List.Perm.refl _, List.Perm.refl _⟩
+
 end InfluxQL.C12
